@@ -43,6 +43,7 @@
 #include <assert.h>
 #include <errno.h>
 #include <ctype.h>
+#include <limits.h>
 #include <sys/param.h>
 #include <unistd.h>
 
@@ -1417,7 +1418,9 @@ static int _parse_single_range(const char *str, struct _range *range)
     if (range->lo > range->hi)
         goto error;
 
-    if (range->hi - range->lo + 1 > MAX_RANGE ) {
+    /* ULONG_MAX is what strtoul() returns for every larger number and the
+     * "empty" mark of hostrange_empty(): it can not be a host number */
+    if (range->hi == ULONG_MAX || range->hi - range->lo >= MAX_RANGE ) {
         _error(__FILE__, __LINE__, "Too many hosts in range `%s'", orig);
         free(orig);
         seterrno_ret(ERANGE, 0);
